@@ -2,10 +2,11 @@
 """Runs every check against behaviour-preserving edits (false-alarm hunt).
 usage: run_benign.py DIR...   each DIR/<id>/patch.diff (or DIR/<id>.diff); results /tmp/sv/benign_results.json"""
 import json, os, subprocess, sys, glob
-WT = '/tmp/sv/benignrun'
+TAG = os.environ.get('BENIGN_TAG', '')
+WT = '/tmp/sv/benignrun' + TAG
 HERE = os.path.dirname(os.path.dirname(os.path.abspath(__file__)))
-env = dict(os.environ, VERIF_VX='/verif/target/release/vx', VERIF_REPO=WT, VERIF_WORK='/tmp/sv/work_benign', VERIF_EVIDENCE='/tmp/sv/evidence_benign',
-           VERIF_REPLAYS='/tmp/sv/replays_benign', VERIF_BOUNDED_IN_ALL='1', VERIF_REPLAY_TARGET='/tmp/sv/rptarget_benign')
+env = dict(os.environ, VERIF_VX='/verif/target/release/vx', VERIF_REPO=WT, VERIF_WORK='/tmp/sv/work_benign' + TAG, VERIF_EVIDENCE='/tmp/sv/evidence_benign' + TAG,
+           VERIF_REPLAYS='/tmp/sv/replays_benign' + TAG, VERIF_BOUNDED_IN_ALL='1', VERIF_REPLAY_TARGET='/tmp/sv/rptarget_benign' + TAG)
 subprocess.run(['git', '-C', '/repo', 'worktree', 'remove', '--force', WT], capture_output=True)
 subprocess.run(f'git -C /repo worktree add -q --detach {WT} HEAD', shell=True, check=True)
 patches = []
@@ -25,7 +26,7 @@ try:
         viol = [l[:400] for l in c.stdout.split('\n') if l.startswith('VIOLATION')]
         inc = sorted(set(l.split(':')[0].split('=')[1] for l in c.stdout.split('\n') if l.startswith('INCONCLUSIVE')))
         res[pid] = {'exit': ex, 'violations': viol, 'undecided': [k for k, v in ex.items() if v == '2'], 'first_inconclusive': [l[:300] for l in c.stdout.split('\n') if l.startswith('INCONCLUSIVE')][:3]}
-        json.dump(res, open('/tmp/sv/benign_results.json', 'w'), indent=1)
+        json.dump(res, open('/tmp/sv/benign_results' + TAG + '.json', 'w'), indent=1)
         print(pid, 'ALARM ' + ','.join(k for k, v in ex.items() if v == '1') if viol else 'ok', 'undecided=' + ','.join(res[pid]['undecided']), flush=True)
 finally:
     subprocess.run(['git', '-C', '/repo', 'worktree', 'remove', '--force', WT], capture_output=True)
